@@ -452,6 +452,210 @@ Proof.
   node' at_ReqAttrs ci_ReqAttrs. uk. rewrite Hall. reflexivity.
 Qed.
 
+(* ---- the look-ups of create_requested_attribute_node, from the attribute as spelt and the converters as loaded *)
+Definition knows (sel : conv -> list (string * string)) (key : string) (cs : list conv) : bool :=
+  is_some (first_hit sel key cs).
+
+(* the arguments for which the element comes out valid, stated on the INPUT: isRequired has to be a boolean; a name
+   that is given needs a name format that is given or - only when the friendly name is left out - a converter that
+   knows the name; a name that is left out needs a converter that knows the friendly name *)
+Definition rattr_ok (cs : list conv) (r : rattr) : bool :=
+  check_lex LBoolean (lower (pystr (rq_required r))) &&
+  if struthy (rq_name r) then
+    if struthy (rq_friendly r) then is_some (rq_format r)
+    else is_some (rq_format r) || knows cv_fro (lower (text_of (rq_name r))) cs
+  else struthy (rq_friendly r) && knows cv_to (lower (text_of (rq_friendly r))) cs.
+
+Lemma struthy_some o : struthy o = true -> exists s, o = Some s.
+Proof. destruct o as [s|]; [eauto|discriminate]. Qed.
+
+Lemma resolve_ok cs r : rattr_ok cs r = true -> exists q, ra_resolve cs r = Some q /\ reqattr_ok q = true.
+Proof.
+  unfold rattr_ok, ra_resolve, reqattr_ok, knows. intros H. apply andb_true_iff in H as [Hb H].
+  destruct (struthy (rq_name r)) eqn:En.
+  - cbn [negb andb]. eexists. split; [reflexivity|]. cbn [ra_required]. rewrite Hb, andb_true_r.
+    unfold ra_step2, ra_step1. cbn [ra_name ra_format ra_friendly ra_to_hit ra_fro_hit fst snd]. rewrite En.
+    destruct (struthy_some _ En) as [n Hn]. rewrite Hn in *. cbn [text_of] in H.
+    cbn [fst snd is_some andb].
+    destruct (struthy (rq_friendly r)) eqn:Ef; cbn [fst snd]; [exact H|].
+    destruct (first_hit cv_fro (lower n) cs) as [[fr f]|]; cbn [is_some fst snd] in *.
+    + destruct (struthy (rq_format r)) eqn:Efm; [|reflexivity]. destruct (struthy_some _ Efm) as [x ->]. reflexivity.
+    + rewrite orb_false_r in H. exact H.
+  - apply andb_true_iff in H as [Ef H]. rewrite Ef. cbn [negb andb]. eexists. split; [reflexivity|].
+    cbn [ra_required]. rewrite Hb, andb_true_r.
+    unfold ra_step2, ra_step1. cbn [ra_name ra_format ra_friendly ra_to_hit ra_fro_hit fst snd]. rewrite En, Ef.
+    destruct (struthy_some _ Ef) as [f Hf]. rewrite Hf in *. cbn [text_of] in H.
+    destruct (first_hit cv_to (lower f) cs) as [[n fm]|]; [|discriminate]. cbn [fst snd is_some andb].
+    destruct (struthy (rq_format r)) eqn:Efm; [|reflexivity]. destruct (struthy_some _ Efm) as [x ->]. reflexivity.
+Qed.
+
+Lemma resolve_all_ok cs l :
+  forallb (rattr_ok cs) l = true -> exists qs, ra_resolve_all cs l = Some qs /\ forallb reqattr_ok qs = true.
+Proof.
+  induction l as [|r t IH]; cbn [forallb ra_resolve_all]; intros H.
+  - exists []. split; reflexivity.
+  - apply andb_true_iff in H as [Hr Ht]. destruct (resolve_ok cs r Hr) as [q [-> Hq]]. destruct (IH Ht) as [qs [-> Hqs]].
+    exists (q :: qs). split; [reflexivity|]. cbn [forallb]. rewrite Hq, Hqs. reflexivity.
+Qed.
+
+Theorem reqattr_valid cs r :
+  rattr_ok cs r = true -> exists q, ra_resolve cs r = Some q /\ owf live_table (requested_attribute q) = true.
+Proof. intros H. destruct (resolve_ok cs r H) as [q [E Hq]]. exists q. split; [exact E|apply owf_requested_attribute; exact Hq]. Qed.
+
+(* the Name written (None: the element has no Name) and the FriendlyName *)
+Definition name_of (q : reqattr) : option string := fst (ra_step1 q).
+Definition friendly_of (q : reqattr) : option string := fst (ra_step2 q).
+Definition format_of (q : reqattr) : option string := snd (ra_step2 q).
+
+Lemma first_hit_app_skip sel key cs1 cs2 :
+  (forall c, In c cs1 -> sassoc key (sel c) = None) -> first_hit sel key (cs1 ++ cs2) = first_hit sel key cs2.
+Proof.
+  induction cs1 as [|c r IH]; intros H; [reflexivity|]. cbn [app first_hit]. rewrite (H c (or_introl eq_refl)).
+  apply IH. intros c' Hc'. apply H. right. exact Hc'.
+Qed.
+
+(* the FIRST map that knows the friendly name decides the Name, whatever maps are loaded after it and whether or not
+   the caller gave a name format (which only decides whose NameFormat is written) *)
+Theorem reqattr_first_map cs1 c cs2 r f n :
+  struthy (rq_name r) = false -> rq_friendly r = Some f -> is_empty f = false ->
+  (forall c', In c' cs1 -> sassoc (lower f) (cv_to c') = None) -> sassoc (lower f) (cv_to c) = Some n ->
+  exists q, ra_resolve (cs1 ++ c :: cs2) r = Some q /\ name_of q = Some n /\ friendly_of q = Some f
+            /\ format_of q = if struthy (rq_format r) then rq_format r else Some (cv_format c).
+Proof.
+  intros En Ef Hne Hskip Hhit. unfold ra_resolve. rewrite En, Ef. cbn [struthy]. rewrite Hne. cbn [negb andb].
+  eexists. split; [reflexivity|].
+  unfold name_of, friendly_of, format_of, ra_step2, ra_step1.
+  cbn [ra_name ra_format ra_friendly ra_to_hit ra_fro_hit fst snd]. rewrite En.
+  rewrite (first_hit_app_skip cv_to (lower f) cs1 (c :: cs2) Hskip). cbn [first_hit]. rewrite Hhit.
+  cbn [fst snd struthy]. rewrite Hne. cbn [negb fst snd]. repeat split.
+Qed.
+
+(* what the caller writes as name_format has no influence on Name and FriendlyName *)
+Definition with_format (r : rattr) (f : option string) : rattr :=
+  {| rq_name := rq_name r; rq_friendly := rq_friendly r; rq_format := f; rq_required := rq_required r |}.
+
+Theorem reqattr_names_independent_of_format cs r f :
+  option_map (fun q => (name_of q, friendly_of q)) (ra_resolve cs (with_format r f))
+  = option_map (fun q => (name_of q, friendly_of q)) (ra_resolve cs r).
+Proof.
+  unfold ra_resolve, with_format. cbn [rq_name rq_friendly rq_format rq_required].
+  destruct (negb (struthy (rq_name r)) && negb (struthy (rq_friendly r))); [reflexivity|].
+  cbn [option_map]. f_equal.
+  unfold name_of, friendly_of, ra_step2, ra_step1. cbn [ra_name ra_format ra_friendly ra_to_hit ra_fro_hit fst snd].
+  destruct (struthy (rq_name r)); cbn [fst snd].
+  - destruct (struthy (rq_friendly r)); cbn [fst snd]; [reflexivity|].
+    destruct (match rq_name r with Some n => first_hit cv_fro (lower n) cs | None => None end) as [[fr fm]|]; reflexivity.
+  - destruct (match rq_friendly r with Some f0 => first_hit cv_to (lower f0) cs | None => None end) as [[n fm]|]; cbn [fst snd].
+    + destruct (struthy (rq_friendly r)); cbn [fst snd]; [reflexivity|].
+      destruct (first_hit cv_fro (lower n) cs) as [[fr fm']|]; reflexivity.
+    + destruct (struthy (rq_friendly r)); cbn [fst snd]; [reflexivity|].
+      destruct (match rq_name r with Some n => first_hit cv_fro (lower n) cs | None => None end) as [[fr fm]|]; reflexivity.
+Qed.
+
+(* a Name is written whenever the caller gave one or some loaded map knows the friendly name *)
+Theorem reqattr_name_present cs r :
+  struthy (rq_name r) || (struthy (rq_friendly r) && knows cv_to (lower (text_of (rq_friendly r))) cs) = true ->
+  exists q n, ra_resolve cs r = Some q /\ name_of q = Some n.
+Proof.
+  intros H. unfold ra_resolve, knows in *. destruct (struthy (rq_name r)) eqn:En.
+  - cbn [negb andb]. destruct (struthy_some _ En) as [n Hn]. eexists. exists n. split; [reflexivity|].
+    unfold name_of, ra_step1. cbn [ra_name ra_format fst]. rewrite En. exact Hn.
+  - cbn [orb] in H. apply andb_true_iff in H as [Ef H]. rewrite Ef. cbn [negb andb].
+    destruct (struthy_some _ Ef) as [f Hf]. rewrite Hf in *. cbn [text_of] in H.
+    destruct (first_hit cv_to (lower f) cs) as [[n fm]|] eqn:Eh; [|discriminate].
+    eexists. exists n. split; [reflexivity|].
+    unfold name_of, ra_step1. cbn [ra_name ra_format ra_to_hit fst]. rewrite En. reflexivity.
+Qed.
+
+(* ---- finding 10: an attribute the maps know, given with name AND friendly name but without name_format: neither
+   loop runs, nothing infers the format, the element has no NameFormat (required by the schema and by the class) *)
+Definition rattr_known (cs : list conv) (r : rattr) : bool :=
+  check_lex LBoolean (lower (pystr (rq_required r))) &&
+  if struthy (rq_name r) then knows cv_fro (lower (text_of (rq_name r))) cs
+  else struthy (rq_friendly r) && knows cv_to (lower (text_of (rq_friendly r))) cs.
+
+Definition rattr_guard (r : rattr) : bool :=
+  negb (struthy (rq_name r) && struthy (rq_friendly r) && negb (is_some (rq_format r))).
+
+Lemma rattr_known_guard_ok cs r : rattr_known cs r = true -> rattr_guard r = true -> rattr_ok cs r = true.
+Proof.
+  unfold rattr_known, rattr_guard, rattr_ok. intros H G. apply andb_true_iff in H as [Hb H]. rewrite Hb. cbn [andb].
+  destruct (struthy (rq_name r)); [|exact H]. rewrite H, orb_true_r.
+  destruct (struthy (rq_friendly r)); [|reflexivity]. cbn [andb] in G. destruct (is_some (rq_format r)); [reflexivity|discriminate].
+Qed.
+
+Theorem reqattr_known_guarded_valid cs r :
+  rattr_known cs r = true -> rattr_guard r = true ->
+  exists q, ra_resolve cs r = Some q /\ owf live_table (requested_attribute q) = true.
+Proof. intros H G. exact (reqattr_valid cs r (rattr_known_guard_ok cs r H G)). Qed.
+
+Definition sample_convs : list conv :=
+  [{| cv_format := "urn:oasis:names:tc:SAML:2.0:attrname-format:uri";
+      cv_to := [("givenname", "urn:oid:2.5.4.42")]; cv_fro := [("urn:oid:2.5.4.42", "givenName")] |}].
+Definition sample_both : rattr :=
+  {| rq_name := Some "urn:oid:2.5.4.42"; rq_friendly := Some "givenName"; rq_format := None; rq_required := PBool true |}.
+
+Theorem reqattr_no_format_refuted :
+  exists cs r q, rattr_known cs r = true /\ ra_resolve cs r = Some q
+                 /\ valid live_table (CK k_extension_requested_attributes_RequestedAttribute)
+                          (to_tree live_table (requested_attribute q)) = false.
+Proof. exists sample_convs, sample_both. eexists. split; [reflexivity|]. split; [reflexivity|]. vm_compute. reflexivity. Qed.
+
+(* the proposed repair: a name format that is still missing after the two loops is taken from the first map that
+   knows the name *)
+Definition format_fixed (cs : list conv) (q : reqattr) : option string :=
+  if struthy (format_of q) then format_of q
+  else match name_of q with
+       | Some n => if is_empty n then format_of q
+                   else match first_hit cv_fro (lower n) cs with Some (_, f) => Some f | None => format_of q end
+       | None => format_of q
+       end.
+
+Definition requested_attribute_fixed (cs : list conv) (q : reqattr) : obj :=
+  Obj k_extension_requested_attributes_RequestedAttribute
+      [at_ "Name" (name_of q); at_ "NameFormat" (format_fixed cs q); at_ "FriendlyName" (friendly_of q);
+       at_ "isRequired" (Some (lower (pystr (ra_required q))))]
+      None [] [].
+
+Lemma fixed_same cs q : struthy (format_of q) = true -> requested_attribute_fixed cs q = requested_attribute q.
+Proof. intros H. unfold requested_attribute_fixed, requested_attribute, format_fixed. rewrite H. reflexivity. Qed.
+
+Theorem reqattr_fixed_valid cs r :
+  rattr_known cs r = true -> exists q, ra_resolve cs r = Some q /\ owf live_table (requested_attribute_fixed cs q) = true.
+Proof.
+  intros H. unfold rattr_known, knows in H. apply andb_true_iff in H as [Hb H].
+  assert (Hex : exists q, ra_resolve cs r = Some q /\ ra_required q = rq_required r /\ is_some (name_of q) = true
+                         /\ is_some (format_fixed cs q) = true).
+  { unfold ra_resolve. destruct (struthy (rq_name r)) eqn:En.
+    - cbn [negb andb]. destruct (struthy_some _ En) as [n Hn]. rewrite Hn in *. cbn [text_of] in H.
+      eexists. split; [reflexivity|]. split; [reflexivity|].
+      unfold format_fixed, format_of, name_of, ra_step2, ra_step1.
+      cbn [ra_name ra_format ra_friendly ra_to_hit ra_fro_hit fst snd]. rewrite En. cbn [fst snd is_some].
+      split; [reflexivity|].
+      assert (Hne : is_empty n = false) by (cbn [struthy] in En; destruct (is_empty n); [discriminate|reflexivity]).
+      rewrite Hne.
+      destruct (first_hit cv_fro (lower n) cs) as [[fr f]|]; [|discriminate].
+      destruct (struthy (rq_friendly r)); cbn [fst snd].
+      + destruct (struthy (rq_format r)) eqn:Efm; [destruct (struthy_some _ Efm) as [x ->]|]; reflexivity.
+      + destruct (struthy (rq_format r)) eqn:Efm.
+        * rewrite Efm. destruct (struthy_some _ Efm) as [x ->]. reflexivity.
+        * destruct (struthy (Some f)); reflexivity.
+    - apply andb_true_iff in H as [Ef H]. rewrite Ef. cbn [negb andb]. destruct (struthy_some _ Ef) as [f Hf].
+      rewrite Hf in *. cbn [text_of] in H.
+      destruct (first_hit cv_to (lower f) cs) as [[n fm]|] eqn:Eh; [|discriminate].
+      eexists. split; [reflexivity|]. split; [reflexivity|].
+      unfold format_fixed, format_of, name_of, ra_step2, ra_step1.
+      cbn [ra_name ra_format ra_friendly ra_to_hit ra_fro_hit fst snd]. rewrite En, ?Eh, Ef. cbn [fst snd is_some].
+      split; [reflexivity|].
+      destruct (struthy (rq_format r)) eqn:Efm.
+      + rewrite Efm. destruct (struthy_some _ Efm) as [x ->]. reflexivity.
+      + destruct (struthy (Some fm)); [reflexivity|]. destruct (is_empty n); [reflexivity|].
+        destruct (first_hit cv_fro (lower n) cs) as [[fr f']|]; reflexivity. }
+  destruct Hex as [q [E [Hr [Hn Hf]]]]. exists q. split; [exact E|].
+  unfold requested_attribute_fixed. destruct (name_of q) as [n|]; [|discriminate]. destruct (format_fixed cs q) as [x|]; [|discriminate].
+  node' at_ReqAttr ci_ReqAttr. rewrite Hr, Hb. conj; leaf.
+Qed.
+
 Definition SPTYPES := ["public"; "private"].
 
 Lemma owf_sp_type_node t : check_lex (LEnum SPTYPES) t = true -> owf live_table (sp_type_node t) = true.
@@ -503,8 +707,8 @@ Record ar_ok (a : ar_args) : Prop := {
   ok_ext : caller_ext_ok (ar_extensions a) = true;
   ok_ext_nonempty : ext_choice a <> Some [];
   ok_sp_type : opt_lexb (LEnum SPTYPES) (ar_cfg_sp_type a) = true;
-  ok_ra : forallb reqattr_ok (ar_reqattrs a) = true;
-  ok_ra_cfg : forallb reqattr_ok (ar_cfg_reqattrs a) = true
+  ok_ra : forallb (rattr_ok (ar_convs a)) (ar_reqattrs a) = true;
+  ok_ra_cfg : forallb (rattr_ok (ar_convs a)) (ar_cfg_reqattrs a) = true
 }.
 
 Lemma ext_choice_ok a : ar_ok a -> opt_ext_ok (ext_choice a) = true.
@@ -526,9 +730,12 @@ Proof.
     cbn [caller_ext_ok]. rewrite forallb_app. cbn [forallb]. cbn [opt_lexb] in Hs. rewrite (ext_ok_sp_type t Hs).
     destruct ext0 as [c|]; cbn [caller_ext_ok] in He; [rewrite He|]; reflexivity. }
   clearbody ext1.
-  set (ras := match ar_reqattrs a with [] => ar_cfg_reqattrs a | l => l end).
+  set (ras := match ras_choice a with Some l => l | None => [] end).
   assert (Hras : forallb reqattr_ok ras = true).
-  { unfold ras. destruct (ar_reqattrs a); [exact Hrc|exact Hr]. }
+  { unfold ras, ras_choice.
+    assert (Hin : forallb (rattr_ok (ar_convs a)) (match ar_reqattrs a with [] => ar_cfg_reqattrs a | l => l end) = true).
+    { destruct (ar_reqattrs a); [exact Hrc|exact Hr]. }
+    destruct (resolve_all_ok _ _ Hin) as [qs [-> Hqs]]. exact Hqs. }
   clearbody ras.
   destruct ras as [|r0 rs'].
   - intros Hne. destruct ext1 as [c|]; [|reflexivity]. cbn [opt_ext_ok]. unfold ext_content_ok.
@@ -581,7 +788,7 @@ Qed.
 
 Theorem owf_authn_request a o : ar_ok a -> authn_request a = Some o -> owf live_table o = true.
 Proof.
-  intros H E. unfold authn_request in E.
+  intros H E. unfold authn_request in E. destruct (ras_choice a) as [ras0|]; [|discriminate].
   destruct (sig_member (ar_signing a) (ar_ob a)) as [sg|] eqn:Es; [|discriminate]. inversion E; subst o. clear E.
   pose proof (sig_part _ _ _ (ok_ob a H) Es) as Hsg. pose proof (ext_member _ (ext_choice_ok a H)) as Hex.
   pose proof (nip_part a H) as Hnip.
@@ -616,7 +823,7 @@ Ltac elem_fact := vm_compute; reflexivity.
 Theorem authn_request_valid a o : ar_ok a -> authn_request a = Some o -> spec live_table (to_tree live_table o).
 Proof.
   intros H E. pose proof (owf_authn_request a o H E) as Ho. unfold authn_request in E.
-  destruct (sig_member _ _); [|discriminate]. inversion E; subst o.
+  destruct (ras_choice a); [|discriminate]. destruct (sig_member _ _); [|discriminate]. inversion E; subst o.
   apply (doc_of_owf _ k_samlp_AuthnRequest ci_AuthnRequest); [reflexivity|exact at_AuthnRequest|elem_fact|exact Ho].
 Qed.
 
@@ -706,8 +913,10 @@ Definition sample_ar : ar_args :=
      ar_cfg_nip_format := Some NAMEID_FORMAT_PERSISTENT; ar_cfg_allow_create := true; ar_cfg_force_authn := PStr "true";
      ar_cfg_rac := RacMap true ["urn:oasis:names:tc:SAML:2.0:ac:classes:Password"] (Some "minimum");
      ar_cfg_sp_type := Some "public"; ar_cfg_sp_type_in_md := Some false;
-     ar_cfg_reqattrs := [{| ra_name := Some "urn:oid:2.5.4.42"; ra_friendly := None; ra_format := None; ra_required := PBool true;
-                            ra_to_hit := None; ra_fro_hit := Some ("givenName", "urn:oasis:names:tc:SAML:2.0:attrname-format:uri") |}];
+     ar_cfg_reqattrs := [{| rq_name := Some "urn:oid:2.5.4.42"; rq_friendly := None; rq_format := None; rq_required := PBool true |};
+                         {| rq_name := None; rq_friendly := Some "eduPersonNickname";
+                            rq_format := Some "urn:oasis:names:tc:SAML:2.0:attrname-format:uri"; rq_required := PStr "1" |}];
+     ar_convs := builtin_convs;
      ar_signing := {| sg_arg := None; sg_should := false |};
      ar_destination := Some "https://idp.example.org/sso"; ar_vorg := "urn:vo"; ar_scoping := None;
      ar_binding := "urn:oasis:names:tc:SAML:2.0:bindings:HTTP-POST"; ar_service_url_binding := None; ar_nameid_format := None;
